@@ -1,5 +1,119 @@
-(* C04 — placeholder while the proofs are being built *)
+(* C04 — Lexing is faithful: element boundaries and types follow IEEE 488.2 section 7 (rejection half; faithfulness half below when proved)
+   Statements only: each theorem is closed by `exact` of a lemma proved in the *_proofs.v files. *)
 From VF Require Import Base Gen_Errors Lexer Lexer_proofs.
-Theorem C04_skip_suffix : forall p c, exists pre, c = pre ++ skip_while p c.
-Proof. exact skip_while_suffix. Qed.
-Print Assumptions C04_skip_suffix.
+Open Scope N_scope.
+
+Theorem C04_lex_total : forall input, exists ts, tokenize input = Val ts.
+Proof. exact lex_total. Qed.
+
+Theorem C04_lex_params_total : forall input, exists ts, tokenize_params input = Val ts.
+Proof. exact lex_params_total. Qed.
+
+Theorem C04_lex_progress : forall l t l', lex_next l = Val (STok t l') ->
+  (length (chars l') < length (chars l))%nat.
+Proof. exact lex_progress. Qed.
+
+Theorem C04_tokenize_shape : forall l ts, tokenize_from l = Val ts ->
+  exists toks, ts = map IOk toks \/ exists e, ts = map IOk toks ++ [IErr e].
+Proof. exact tokenize_shape. Qed.
+
+Theorem C04_lex_error_class : forall l e, lex_next l = Val (SErr e) ->
+  ((-199 <= e <= -100)%Z \/ e = DataOutOfRange).
+Proof. exact lex_error_class. Qed.
+
+Theorem C04_mnemonic_13 : forall m rest com, (length m = 13)%nat ->
+  (exists x m', m = x :: m' /\ is_alpha x = true) ->
+  forallb is_mnemonic_char m = true ->
+  lex_next (mkLexer (m ++ rest) true com) = Val (SErr ProgramMnemonicTooLong).
+Proof. exact mnemonic_13. Qed.
+
+Theorem C04_chardata_13 : forall m rest com, (length m = 13)%nat ->
+  (exists x m', m = x :: m' /\ is_alpha x = true) ->
+  forallb is_mnemonic_char m = true ->
+  lex_next (mkLexer (m ++ rest) false com) = Val (SErr CharacterDataTooLong).
+Proof. exact chardata_13. Qed.
+
+Theorem C04_unterminated_string : forall q body hdr_com, ((q =? 34) || (q =? 39))%N = true ->
+  forallb (fun b => negb (b =? q)%N && is_ascii b) body = true ->
+  lex_next (mkLexer (q :: body) false hdr_com) = Val (SErr InvalidStringData).
+Proof. exact unterminated_string. Qed.
+
+Theorem C04_non_ascii_in_string : forall q pre b rest com, ((q =? 34) || (q =? 39))%N = true ->
+  forallb (fun b => negb (b =? q)%N && is_ascii b) pre = true -> is_ascii b = false ->
+  lex_next (mkLexer (q :: pre ++ b :: rest) false com) = Val (SErr InvalidCharacter).
+Proof. exact non_ascii_in_string. Qed.
+
+Theorem C04_non_ascii_outside : forall b rest hdr com, is_ascii b = false ->
+  lex_next (mkLexer (b :: rest) hdr com) = Val (SErr InvalidCharacter).
+Proof. exact non_ascii_outside. Qed.
+
+Theorem C04_block_truncated : forall nd lenfield payload com,
+  (1 <= length lenfield <= 9)%nat -> nd = (48 + N.of_nat (length lenfield))%N ->
+  forallb is_digit lenfield = true ->
+  (N.of_nat (length payload) < fst (radix_digits 10 lenfield 0 0))%N ->
+  lex_next (mkLexer (35 :: nd :: lenfield ++ payload) false com) = Val (SErr InvalidBlockData).
+Proof. exact block_truncated. Qed.
+
+Theorem C04_block_bad_header : forall nd lenfield rest com, (1 <= length lenfield <= 9)%nat ->
+  nd = (48 + N.of_nat (length lenfield))%N -> forallb is_digit lenfield = false ->
+  lex_next (mkLexer (35 :: nd :: lenfield ++ rest) false com) = Val (SErr InvalidBlockData).
+Proof. exact block_bad_header. Qed.
+
+Theorem C04_doubled_colon : forall rest hdr com,
+  lex_next (mkLexer (58 :: 58 :: rest) hdr com) = Val (SErr InvalidSeparator).
+Proof. exact doubled_colon. Qed.
+
+Theorem C04_colon_in_data : forall rest com,
+  lex_next (mkLexer (58 :: rest) false com) = Val (SErr InvalidSeparator).
+Proof. exact colon_in_data. Qed.
+
+Theorem C04_colon_in_common : forall rest hdr,
+  lex_next (mkLexer (58 :: rest) hdr true) = Val (SErr InvalidSeparator).
+Proof. exact colon_in_common. Qed.
+
+Theorem C04_comma_in_header : forall rest com,
+  lex_next (mkLexer (44 :: rest) true com) = Val (SErr HeaderSeparatorError).
+Proof. exact comma_in_header. Qed.
+
+Theorem C04_doubled_comma : forall w rest com, forallb is_ws w = true ->
+  lex_next (mkLexer (44 :: w ++ 44 :: rest) false com) = Val (SErr SyntaxError).
+Proof. exact doubled_comma. Qed.
+
+Theorem C04_comma_after_header_sep : forall x w rest hdr com, is_ws x = true -> (x =? 10)%N = false ->
+  forallb is_ws w = true ->
+  lex_next (mkLexer (x :: w ++ 44 :: rest) hdr com) = Val (SErr SyntaxError).
+Proof. exact comma_after_header_sep. Qed.
+
+Theorem C04_missing_separator_after_chardata : forall m w y rest com, (1 <= length m <= 12)%nat ->
+  (exists x m', m = x :: m' /\ is_alpha x = true) -> forallb is_mnemonic_char m = true ->
+  forallb is_ws w = true ->
+  is_mnemonic_char y = false -> is_ws y = false -> (y =? 44)%N = false -> (y =? 59)%N = false ->
+  lex_next (mkLexer (m ++ w ++ y :: rest) false com) = Val (SErr InvalidCharacterData).
+Proof. exact missing_separator_after_chardata. Qed.
+
+Theorem C04_missing_separator_after_string : forall q body w y rest com, ((q =? 34) || (q =? 39))%N = true ->
+  forallb (fun b => negb (b =? q)%N && is_ascii b) body = true -> forallb is_ws w = true ->
+  is_ws y = false -> (y =? 44)%N = false -> (y =? 59)%N = false -> (y =? q)%N = false ->
+  lex_next (mkLexer (q :: body ++ q :: w ++ y :: rest) false com) = Val (SErr SuffixNotAllowed).
+Proof. exact missing_separator_after_string. Qed.
+
+Print Assumptions C04_lex_total.
+Print Assumptions C04_lex_params_total.
+Print Assumptions C04_lex_progress.
+Print Assumptions C04_tokenize_shape.
+Print Assumptions C04_lex_error_class.
+Print Assumptions C04_mnemonic_13.
+Print Assumptions C04_chardata_13.
+Print Assumptions C04_unterminated_string.
+Print Assumptions C04_non_ascii_in_string.
+Print Assumptions C04_non_ascii_outside.
+Print Assumptions C04_block_truncated.
+Print Assumptions C04_block_bad_header.
+Print Assumptions C04_doubled_colon.
+Print Assumptions C04_colon_in_data.
+Print Assumptions C04_colon_in_common.
+Print Assumptions C04_comma_in_header.
+Print Assumptions C04_doubled_comma.
+Print Assumptions C04_comma_after_header_sep.
+Print Assumptions C04_missing_separator_after_chardata.
+Print Assumptions C04_missing_separator_after_string.
